@@ -75,6 +75,8 @@ ADVERSARIAL = [
     ("print(10 - 2 + 3)\nprint(100 // 10 // 5)\nprint(2 + 3 * 4)\nprint(2 ^ 3 ^ 2)\nprint(1 < 2 and 2 < 3)\n", "precedence"),
     ("def (p, q) := (1, 2)\nprint(p + q)\nprint((p, q))\nprint([p, q, 3])\n", "tuple"),
     ("def f(n: Int) -> Int => if n <= 1 then 1 else n * f(n - 1)\nprint(f(6))\n", "recursion"),
+    ("def a := 3\nprint((-2) ^ 2)\nprint(-2 ^ 2)\nprint((-a) * 2)\nprint(2 - (-a))\nprint((-2) mod 3, (-7) // 2)\n", "signed-operands"),
+    ("def n: Int := -3\nprint(n)\nprint(n ^ 2)\ndef f(x: Int) -> Int => -x\nprint(f(4) + f(-1))\n", "signed-literals"),
     ("def t := True\ndef u := False\nprint(t and u, t or u, not t)\nprint(\"a\" + \"b\" = \"ab\")\n", "bool-ops"),
 ]
 
